@@ -39,7 +39,7 @@ type stats struct {
 }
 
 // after a failure has been seen, waiting for quiescence is cut short (the tree is not the unchanged one)
-var quiesceTimeout = 10 * time.Second
+var quiesceTimeout = 20 * time.Second
 
 func readable(cs Case) string {
 	var b strings.Builder
